@@ -334,6 +334,47 @@ fn judge_history(c: &HistCase, cls: &mut Classifier) -> Verdict {
             e
         })?;
     }
+    // the same transactions with the calls interleaved: all parsed, all digested, then signed and encoded in
+    // another order (first, last, second, ...) - what encode() emits for a transaction may not depend on which
+    // transaction was digested or encoded last
+    let r = catch(|| {
+        let txs: Vec<Transaction> = c.steps.iter().map(|s| serde_json::from_str::<Transaction>(&s.doc).expect("parsed above")).collect();
+        let digests: Vec<_> = txs.iter().map(|t| t.signing_message()).collect();
+        let k = PrivateKey::new(key).expect("valid key");
+        let n = txs.len();
+        let order: Vec<usize> = (0..n).map(|j| if j % 2 == 0 { j / 2 } else { n - 1 - j / 2 }).collect();
+        let mut out = vec![];
+        for i in order {
+            let sig = k.sign(digests[i]);
+            let enc = txs[i].encode(sig);
+            out.push((i, digests[i].0, parts(&sig), enc));
+        }
+        // ... and with the digest of a neighbour taken between the digest and the encoding of each
+        for i in 0..n {
+            let d = txs[i].signing_message();
+            let _ = txs[(i + 1) % n].signing_message();
+            let sig = k.sign(d);
+            let enc = txs[i].encode(sig);
+            out.push((i, d.0, parts(&sig), enc));
+        }
+        out
+    });
+    match r {
+        Err(p) => return fail("digests and encodings", p, format!("interleaved calls over the history {:?} panicked", c.changes)),
+        Ok(out) => {
+            for (i, digest, sig, enc) in out {
+                let m = &c.steps[i].model;
+                if digest != m.digest() {
+                    return fail(hex_lower(&m.digest()), hex_lower(&digest), format!("signing digest of step {i} when all steps of the history {:?} are digested before any is encoded; {}", c.changes, crate::engine::truncate(&c.steps[i].doc, 400)));
+                }
+                let want = m.signed_payload(&sig.r, &sig.s, sig.parity).unwrap_or_default();
+                if enc != want {
+                    return fail(short(&want), short(&enc), format!("signed payload of step {i} when all steps of the history {:?} are parsed and digested first and then encoded in the order first, last, second, ... (or with the digest of the next step taken between its digest and its encoding); {}", c.changes, crate::engine::truncate(&c.steps[i].doc, 400)));
+                }
+            }
+        }
+    }
+    cls.label("history/interleaved");
     for ch in &c.changes {
         cls.label(&format!("history/{ch}"));
     }
